@@ -3164,6 +3164,14 @@ def c16_special(tier, rng, hooks):
             else:
                 ops.append("setfn " + hexs(rng.choice(["f", "a", "max"])))
         lines.append("%d\tSERDEC\t%s" % (len(lines), ";".join(ops)))
+    # round trips that FAIL (tuples nested deeper than the wire format reads back) leave nothing behind in the thread:
+    # an ordinary context round-trips afterwards
+    for depth, reps in ((40, 3), (60, 2), (100, 2), (36, 4), (33, 70)):
+        deep = "I1"
+        for _ in range(depth):
+            deep = "T(%s)" % deep
+        parts = ["set %s %s" % (hexs("d"), deep)] * reps + ["set %s T(I1,T(I2,S61))" % hexs("t") + ";set %s I5" % hexs("a")]
+        lines.append("%d\tSERDEC2\t%s" % (len(lines), "|".join(parts)))
     outs, errs = L.run_impl(lines, "debug", serde=True, tag="serde")
     ns = nc = 0
     for l in lines:
@@ -3173,6 +3181,12 @@ def c16_special(tier, rng, hooks):
             ns += 1
         else:
             nc += 1
+        if "SERDEC2" in l:
+            nc += 1
+            last = o.split(" ;; ")[-1] if o else ""
+            if not last.startswith("SAME"):
+                fails.append({"why": "after round trips of deeply nested tuples in the same thread, an ordinary context no longer round-trips: %s" % last[:300], "case": l.split("\t", 1)[1][:200], "observed": o[-400:]})
+            continue
         if "SERDEN2" in l:
             if not o or any(not part.startswith("SAME") for part in o.split(" ;; ")):
                 fails.append({"why": "strings deserialized one after the other: the serde result of one of them differs from precompiling it: %s" % o[:400], "case": l.split("\t", 1)[1][:400], "observed": o[:400]})
